@@ -226,12 +226,12 @@ Proof.
   unfold bind in *. unfold TransformState.data_ref in *.
   rewrite (get_params_pds sa s1 ob Ep) in Ht.
   destruct (get_params sa ob) as [[| r ip | f | o']|] eqn:Egp; try discriminate.
-  - injection Ht as <- <-. split; auto. f_equal. f_equal. f_equal. apply (prefix_tval sa s1 _ Hp).
+  - injection Ht as <- <-. split; auto. f_equal. f_equal. f_equal. symmetry. apply (prefix_tval sa s1 _ Hp).
     eapply get_params_ref; eauto.
   - destruct (o_p P G C ob) eqn:Epp; try discriminate. injection Ht as <- <-. split; auto.
-    f_equal. f_equal. f_equal. apply (prefix_tval sa s1 _ Hp). destruct Hob as (_ & _ & _ & H3 & _). auto.
+    f_equal. f_equal. f_equal. symmetry. apply (prefix_tval sa s1 _ Hp). destruct Hob as (_ & _ & _ & H3 & _). auto.
   - destruct (o_p P G C ob) eqn:Epp; try discriminate. injection Ht as <- <-. split; auto.
-    f_equal. f_equal. f_equal. apply (prefix_tval sa s1 _ Hp). destruct Hob as (_ & _ & _ & H3 & _). auto.
+    f_equal. f_equal. f_equal. symmetry. apply (prefix_tval sa s1 _ Hp). destruct Hob as (_ & _ & _ & H3 & _). auto.
 Qed.
 
 Lemma update_all_fresh l : forall s s1,
@@ -245,7 +245,7 @@ Proof.
   pose proof (update1_touches _ _ _ _ Hg0 Eu) as Htch.
   pose proof (touches_ext _ _ _ Htch) as Hext.
   assert (Hwa : wf sa).
-  { pose proof (update1_post p0 callP fits spline_ok cf s m0 Hw) as [Hx _]. rewrite Eu in Hx. exact Hx. }
+  { pose proof (update1_post p0 (fun _ _ => p0) (fun x => x) (fun x _ => x) (fun _ x _ _ => x) callP fits (fun _ _ => true) (fun _ _ => true) spline_ok (fun _ _ => None) cf s m0 Hw) as [Hx _]. rewrite Eu in Hx. exact Hx. }
   destruct (in_dec Nat.eq_dec m l) as [Hl|Hnl].
   - (* updated again later in the cascade *)
     assert (Hpa : Forall (plain sa) l).
